@@ -411,6 +411,55 @@ def history (cache : Cache) : List (Req × Bool × List Act) → List (St × Byt
     computed independently. -/
 def pairRun (a b : Req × Bool × List Act) : List (St × Bytes) := history [] [a, b]
 
+/-! ## Responses that come from a backend as wire bytes (ReadResponse → ReverseProxy.sendResponse) -/
+
+inductive BFraming where
+  | len (n m : Nat)                                   -- Content-Length n, m body bytes on the wire
+  | chunked (sizes : List Nat) (trailer cut : Bool)    -- cut: the stream ends inside the last chunk
+  | none (m : Nat)                                     -- no framing: m bytes, then EOF
+  deriving Repr, DecidableEq
+
+structure Backend where
+  status : Nat
+  framing : BFraming
+  connKeepAlive : Bool     -- `Connection: keep-alive` (a `Connection: close` is removed by ReadResponse)
+  contentType : Bool
+  big : Bool               -- a 5000-byte header value
+  deriving Repr
+
+def statusBodyless (st : Nat) : Bool := (100 ≤ st && st < 200) || st == 204 || st == 304
+
+/-- readTransfer: is res.Body a real reader (else EofReader)?  chunked wins over the status. -/
+def Backend.bodyRead (b : Backend) (isHead : Bool) : Bool :=
+  match b.framing with
+  | .chunked _ _ _ => !isHead
+  | .len n _ => !isHead && !statusBodyless b.status && n != 0
+  | .none _ => !isHead && !statusBodyless b.status
+
+/-- bytes the body reader delivers before EOF / error, and whether it ends with an error -/
+def Backend.delivered (b : Backend) : Nat × Bool :=
+  match b.framing with
+  | .len n m => (min n m, decide (m < n))
+  | .chunked sizes _ cut =>
+    if cut then (sizes.dropLast.sum + (sizes.getLast?.getD 0) / 2, true) else (sizes.sum, false)
+  | .none m => (m, false)
+
+/-- what sendResponse does on the ResponseWriter: CopyHeader, WriteHeader(status), io.Copy of the body -/
+def Backend.script (b : Backend) (isHead : Bool) : List Act :=
+  [Act.add "X-Id" "b"] ++
+  (if b.connKeepAlive then [Act.add "Connection" "keep-alive"] else []) ++
+  (if b.contentType then [Act.add "Content-Type" "text/x"] else []) ++
+  (if b.big then [Act.add "X-Big" (String.ofList (List.replicate 5000 'g'))] else []) ++
+  (match b.framing with | .len n _ => [Act.add "Content-Length" (toString n)] | _ => []) ++
+  [Act.writeHeader b.status] ++
+  (if b.bodyRead isHead && b.delivered.1 > 0 then [Act.write (List.replicate b.delivered.1 120)] else [])
+
+/-- (state, the connection is closed after the reply) — a copy error makes ServeHTTP close after the reply -/
+def respondBackend (rq : Req) (ka : Bool) (b : Backend) : St × Bool :=
+  let s := respond rq ka (b.script rq.isHead)
+  let sendErr := (b.bodyRead rq.isHead && b.delivered.2) || s.writeRes.any (· != 0)
+  (s, s.close || sendErr)
+
 /-! ## SPEC: how an RFC 7230 recipient delimits the response -/
 
 inductive Framing where
@@ -633,5 +682,21 @@ def judge (isHead proto11 : Bool) (script : List Act) (close : Bool) (wres : Lis
         | (k, _) :: _ =>
           if st == 304 && k == "Content-Type" then "FAIL:hdr-dropped-304-content-type"
           else "FAIL:hdr-dropped"
+
+/-- SPEC for a backend response: as `judge`, with the backend's own end-to-end headers and body as the
+    reference; if the backend's body ended early (short of its Content-Length / inside a chunk) the client
+    must be able to notice: the response it gets must not be a complete, self-delimited message. -/
+def judgeBackend (isHead proto11 : Bool) (b : Backend) (close : Bool) (out : Bytes) : String :=
+  let truncated := b.bodyRead isHead && b.delivered.2
+  if truncated && !bodylessStatus isHead b.status then
+    match rfcResponse isHead out with
+    | none => "FAIL:unparseable"
+    | some p =>
+      if p.status != b.status then "FAIL:status"
+      else if p.complete && p.framing != .untilClose then "FAIL:backend-truncation-masked"
+      else if !close then "FAIL:truncated-no-close"
+      else "ok"
+  else judge isHead proto11 (b.script isHead) close [0] out
+
 
 end BfeVerif.C27
